@@ -489,8 +489,8 @@ fn gen_c03(rng: &mut Rng, seed: u64, index: u64, long: bool) -> Scenario {
         if i % 8 == 3 {
             g.ops.push(Op::ChkDead {
                 h: 0,
-                depth: if long { 12 } else { 8 },
-                nodes: if long { 4000 } else { 1200 },
+                depth: if long { 8 } else { 5 },
+                nodes: if long { 1500 } else { 250 },
             });
         }
         let p = match g.rng.below(10) {
